@@ -217,6 +217,15 @@ where
             proof.ext_degree
         )));
     }
+    // Bind the declared ALU reduction to the verifier's field, as `verify_all_tables` does.
+    let expected_quintic = TRACE_D == 5
+        && <SC::Challenge as ExtractBinomialW<Val<SC>>>::alu_is_quintic_trinomial();
+    if proof.alu_quintic_trinomial != expected_quintic {
+        return Err(VerificationError::InvalidProofShape(format!(
+            "ALU reduction mismatch: proof declares alu_quintic_trinomial = {}, verifier expects {expected_quintic}",
+            proof.alu_quintic_trinomial
+        )));
+    }
     let rows: RowCounts = proof.rows;
     let packing = proof.table_packing.clone();
     let public_lanes = packing.public_lanes();
@@ -277,6 +286,14 @@ where
     let mut air_public_counts = vec![0usize; NUM_PRIMITIVE_TABLES];
     for entry in &proof.non_primitives {
         air_public_counts.push(entry.public_values.len());
+    }
+    // `allocate` asserts this; a malformed proof must produce an error instead.
+    if proof.proof.opened_values.instances.len() != air_public_counts.len() {
+        return Err(VerificationError::InvalidProofShape(format!(
+            "proof opens {} instances but the metadata describes {} tables",
+            proof.proof.opened_values.instances.len(),
+            air_public_counts.len()
+        )));
     }
     let verifier_inputs = BatchStarkVerifierInputsBuilder::<SC, Comm, OpeningProof>::allocate(
         circuit,
@@ -387,6 +404,13 @@ where
     // `global.instances.instances[i]`, and `matrix_to_instance` lookups). Validate
     // its lengths and bounds up front so malformed/mismatched `CommonData` returns
     // a typed error instead of panicking during circuit construction.
+    if lookup_terminals.len() != airs.len() {
+        return Err(VerificationError::InvalidProofShape(format!(
+            "lookup terminal count must equal number of AIR instances: expected {}, got {}",
+            airs.len(),
+            lookup_terminals.len()
+        )));
+    }
     if common.lookups.len() != airs.len() {
         return Err(VerificationError::InvalidProofShape(format!(
             "common-data lookups length must equal number of AIR instances: expected {}, got {}",
